@@ -390,4 +390,56 @@ def c02_compat(extra=1, bare=False, grouped=False):
     return {"violates": not ok, "read": repr(back), "version": repr(getattr(back[0], "_version", None)) if back else None}
 
 
-CALLS = {"c02_registry_keeps": c02_registry_keeps, "c02_bare_name_latest": c02_bare_name_latest, "c02_refused_then_written": c02_refused_then_written, "c02_history_sweep": c02_history_sweep, "c02_golden": c02_golden, "c02_make_golden": c02_make_golden, "c02_reference_sweep": c02_reference_sweep, "c02_reference_decode": c02_reference_decode, "c02_reference_encode": c02_reference_encode, "c02_compat": c02_compat}
+
+def c02_concat():
+    """three streams written by the implementation, concatenated byte for byte, read by the implementation"""
+    import io
+    from flow.record import RecordDescriptor
+    from flow.record.stream import RecordStreamReader, RecordStreamWriter
+
+    D = RecordDescriptor("c02/rec", [("varint", "n")])
+    data = b""
+    for k in (7, 8, 9):
+        fp = io.BytesIO()
+        w = RecordStreamWriter(fp)
+        w.write(D(n=k))
+        w.flush()
+        data += fp.getvalue()
+        w.fp = None
+    try:
+        out = list(RecordStreamReader(io.BytesIO(data)))
+        got = [getattr(o, "n", repr(o)[:30]) for o in out]
+    except Exception as e:
+        return {"violates": True, "detail": f"reading three concatenated streams raised {type(e).__name__}: {e}"}
+    return {"violates": got != [7, 8, 9], "detail": f"three concatenated streams holding 7, 8, 9 were read as {got!r}"}
+
+
+def c02_ignoring(x=0):
+    """a record written while fields are ignored for comparison, decoded by the independent reference codec"""
+    import io
+    import flow.record.base as fb
+    from flow.record import RecordDescriptor
+    from flow.record.stream import RecordStreamWriter
+
+    D = RecordDescriptor("c02/rec", [("varint", "n"), ("string", "s"), ("string[]", "l")])
+    r = D(n=x, s="text", l=["a", "b"])
+    saved = fb.IGNORE_FIELDS_FOR_COMPARISON
+    fb.set_ignored_fields_for_comparison(["_generated", "s", "l"])
+    try:
+        fp = io.BytesIO()
+        w = RecordStreamWriter(fp)
+        w.write(r)
+        w.flush()
+    finally:
+        fb.IGNORE_FIELDS_FOR_COMPARISON = saved
+    data = fp.getvalue()
+    w.fp = None
+    try:
+        recs = [e for e in R.decode_stream(data) if e[0] == "REC"]
+    except Exception as e:
+        return {"violates": True, "detail": f"the reference codec cannot decode the stream: {type(e).__name__}: {e}"}
+    vals = list(recs[0][3]) if recs else None
+    ok = bool(recs) and len(vals) == 7 and vals[0] == x and vals[1] == "text" and list(vals[2]) == ["a", "b"]
+    return {"violates": not ok, "detail": f"record frame values {vals!r} (the format has n, s, l and the four metadata fields)"}
+
+CALLS = {"c02_concat": c02_concat, "c02_ignoring": c02_ignoring, "c02_registry_keeps": c02_registry_keeps, "c02_bare_name_latest": c02_bare_name_latest, "c02_refused_then_written": c02_refused_then_written, "c02_history_sweep": c02_history_sweep, "c02_golden": c02_golden, "c02_make_golden": c02_make_golden, "c02_reference_sweep": c02_reference_sweep, "c02_reference_decode": c02_reference_decode, "c02_reference_encode": c02_reference_encode, "c02_compat": c02_compat}
